@@ -530,11 +530,11 @@ pub fn def(tier: Tier) -> PropertyDef {
 			}
 			BatchCase { m, cuts, clone_at }
 		});
-		checks.push(pt(&format!("batch_{name}"), tier.pick(2500, 12000), strat, run_batch));
+		checks.push(pt(&format!("batch_{name}"), tier.pick(2500, 60000), strat, run_batch));
 	}
 	for k in dynm::kinds() {
 		if k.has_peek {
-			checks.push(pt(&format!("peek_{}", k.name), tier.pick(2500, 12000), mgen::method_case(k.name, max_len), run_peek));
+			checks.push(pt(&format!("peek_{}", k.name), tier.pick(2500, 60000), mgen::method_case(k.name, max_len), run_peek));
 		}
 	}
 	for name in cfggen::NAMES {
@@ -545,7 +545,7 @@ pub fn def(tier: Tier) -> PropertyDef {
 			}
 			IBatch { cfg, s, cuts, clone_at }
 		});
-		checks.push(pt(&format!("indicator_{name}"), tier.pick(1200, 6000), strat, run_ibatch));
+		checks.push(pt(&format!("indicator_{name}"), tier.pick(1200, 30000), strat, run_ibatch));
 	}
 	checks.extend(crate::fuzz_entry::corpus_checks("C09"));
 	PropertyDef {
